@@ -65,6 +65,13 @@ class FileInfo:
                     # nested baseline closures: inline artefacts inside them too
                     container[i] = nf
         process(new.body, None)
+        # module-level statements: artefact helpers called at import time (`_install_wrappers()`) are inlined there too
+        from .normalize import Inliner
+        mod_fn = ast.FunctionDef(name="<module>", args=ast.arguments(posonlyargs=[], args=[], kwonlyargs=[], kw_defaults=[], defaults=[]), body=new.body, decorator_list=[], lineno=1, col_offset=0)
+        mi = Inliner(model, self.rel, None)
+        mi.run(mod_fn)
+        new.body = mod_fn.body
+        inlined.update(mi.inlined)
         # sequential statement numbering (ordering by lineno stays meaningful after inlining); real lines in _srcline
         for n in ast.walk(new):
             if hasattr(n, "lineno"):
@@ -91,6 +98,9 @@ class FileInfo:
                 st.end_lineno = counter[0]
         number(new.body)
         self.tree = new
+        # the module itself can stand for a function in value tracing (tiv.sem): no parameters, its statements as body
+        new.args = ast.arguments(posonlyargs=[], args=[], kwonlyargs=[], kw_defaults=[], defaults=[])
+        new.name = "<module>"
         self.defs = {}
         self._annotate()
         self.inlined_artefacts = {q for q, d in self.defs.items() if isinstance(d, ast.FunctionDef) and d.name in inlined and is_artefact(self.rel, d, nested=isinstance(getattr(d, '_p', None), (ast.FunctionDef, ast.If, ast.With, ast.Try, ast.For, ast.While)))}
